@@ -1,7 +1,7 @@
 (** Model of the string and key-space commands: server.rs handle_set ..
     handle_renamenx, commands/strings.rs, and the engine.rs functions they call
-    (after the repairs 3f1bb0a, 9f58b0e, 6d37cd4, b7ebfaa, 7e7b351, and e0df64a, 0e6458f,
-    0bd9e72, 5887f54: SETRANGE with an empty value, SET EX with PX, SETEX 0, canonical integers).
+    (after the repairs 3f1bb0a, 9f58b0e, 6d37cd4, b7ebfaa, 7e7b351, and 6988c1c, d6b03fb,
+    02eb367, e4bcfd7: SETRANGE with an empty value, SET EX with PX, SETEX 0, canonical integers).
     Each handler: [now -> db -> parts -> reply * db], parts = whole command. *)
 From Ferrous Require Import Base.Bytes Generated Model.Resp Model.Types Model.Glob.
 Open Scope Z_scope.
@@ -101,7 +101,7 @@ Definition nparts (parts : list frame) : Z := len parts.
 
 (** ---- handlers ---- *)
 Inductive setopt := SetOpts (ttl : option Z) (nx xx : bool) | SetSyntax | SetBadExpire.
-(** the option loop of handle_set; [ex] / [px]: EX / PX has been seen (0e6458f: each excludes the other) *)
+(** the option loop of handle_set; [ex] / [px]: EX / PX has been seen (d6b03fb: each excludes the other) *)
 Fixpoint parse_set_opts (fuel : nat) (opts : list frame) (ttl : option Z) (ex px nx xx : bool) : setopt :=
   match fuel with
   | O => SetOpts ttl nx xx
@@ -111,7 +111,7 @@ Fixpoint parse_set_opts (fuel : nat) (opts : list frame) (ttl : option Z) (ex px
     | FBulk o :: rest =>
         let u := upper o in
         if beq u (bs "EX") then
-          if px then SetSyntax else                        (* 0e6458f: EX after PX is a syntax error *)
+          if px then SetSyntax else                        (* d6b03fb: EX after PX is a syntax error *)
           match rest with
           | [] => SetSyntax
           | FBulk s :: rest' =>
@@ -123,7 +123,7 @@ Fixpoint parse_set_opts (fuel : nat) (opts : list frame) (ttl : option Z) (ex px
           | _ => SetBadExpire
           end
         else if beq u (bs "PX") then
-          if ex then SetSyntax else                        (* 0e6458f: PX after EX is a syntax error *)
+          if ex then SetSyntax else                        (* d6b03fb: PX after EX is a syntax error *)
           match rest with
           | [] => SetSyntax
           | FBulk s :: rest' =>
@@ -191,7 +191,7 @@ Definition h_get (now : Z) (d : db) (parts : list frame) : frame * db :=
       end
   end.
 
-(** value.rs parse_canonical_i64 (5887f54): the canonical decimal form of an i64 only, as Redis'
+(** value.rs parse_canonical_i64 (e4bcfd7): the canonical decimal form of an i64 only, as Redis'
     string2ll - an optional '-', then digits with no leading zero (the single "0" excepted); no
     '+', no "-0", no surrounding space, nothing out of range.  After a first digit 1-9 what
     [str::parse] accepts is what it always accepts: digits, in range. *)
@@ -392,7 +392,7 @@ Definition h_setex (mult : Z) (now : Z) (d : db) (parts : list frame) : frame * 
           match parse_u64 a with
           | None => (r_err, d)
           | Some n =>
-              if n =? 0 then (r_err, d) else               (* 0bd9e72: the expire time must be positive *)
+              if n =? 0 then (r_err, d) else               (* 02eb367: the expire time must be positive *)
               match nth_arg parts 3 with
               | None => (r_err, d)
               | Some v => if ttl_ok (n * mult) then (r_ok, set_value now d k (VStr v) (Some (n * mult)))
@@ -523,7 +523,7 @@ Definition setrange_bytes (b : bytes) (off : Z) (v : bytes) : bytes :=
   let b' := if len b <? need then b ++ zeros (need - len b) else b in
   zfirstn off b' ++ v ++ zskipn need b'.
 
-(** engine.rs setrange; e0df64a: an empty value changes nothing, whatever the offset - the reply is
+(** engine.rs setrange; 6988c1c: an empty value changes nothing, whatever the offset - the reply is
     the current length (0 for a missing key, WRONGTYPE for another type), before the size check *)
 Definition eng_setrange (d : db) (k : bytes) (off : Z) (v : bytes) : frame * db :=
   if len v =? 0 then
